@@ -307,6 +307,8 @@ def d3_checker(ctx, cls, appenders):
     retnames = {x.id for r in rets if r.value is not None for x in ast.walk(r.value) if isinstance(x, ast.Name)}
 
     def is_conv(v):
+        if isinstance(v, ast.IfExp):
+            return is_conv(v.body) and is_conv(v.orelse)
         return isinstance(v, ast.Call) and dotted(v.func) in ('np.asarray', 'np.array', 'numpy.asarray', 'numpy.array') and \
             v.args and (param in names_in(v.args[0]) or retnames & names_in(v.args[0]))
     cv = [n for n in own_nodes(chk.node) if isinstance(n, ast.Assign) and is_conv(n.value)
